@@ -1,6 +1,6 @@
 """C06 — plain data passes through unchanged; $$ escapes any literal dollar."""
 import gen
-from histcheck import chain_case
+from histcheck import chain_case, run_cases
 from props.evalcommon import standard_run, standard_replay
 from wire import from_wire
 
@@ -109,7 +109,23 @@ def nontrivial(case, go, mo):
     return "$" in str(case["steps"][0]["merge"]["data"]) or len(case["steps"]) > 3
 
 
+def known_findings(rep):
+    """KF-C06-1: the depth guard rejects plain data nested deeper than 1000 levels (replayed on every run)."""
+    from common import load_known
+    for k in load_known().get("open", []):
+        if k.get("property") == PID and k.get("signature") == "c06.deeper_than_depth_guard":
+            n = k["witness"]["nest"]
+            v = 1
+            for _ in range(n):
+                v = [v]
+            r = run_cases([chain_case([{"a": v}], tail=("outdocs",))])[0]
+            last = (r[1] or {}).get("res", [{}])[-1]
+            still = "err" in last
+            rep.known_finding(k["id"], k["what_fails"] + ("" if still else " (witness no longer fails)"))
+
+
 def run(rep):
+    known_findings(rep)
     standard_run(rep, PID, gen_case, nontrivial, "escaped/plain data not preserved", 4000, 200000,
                  "trees whose keys and strings come from an alphabet of $, quotes, braces, colons, dots and every directive "
                  "name/form; (a) every $ doubled, expected output = original minus nulls; (b) directive-free plain data "
